@@ -2,7 +2,8 @@
    Models: C14_Derived/Model.v (one step = one API call run to completion incl. nested callbacks; lower layer =
    property C13 taken as interface).  Interleaving models: WGI (WaitGroup), LK (SortedSet lock skeleton). *)
 From Coq Require Import ZArith NArith List Bool Sorting.Sorted.
-From Verif.C14_Derived Require Import Model.
+From Verif.C14_Derived Require Import Model ModelDVI.
+From Verif.C14_Derived Require ProofsDVI.
 From Verif.C14_Derived Require ProofsDV ProofsCT ProofsSS ProofsEV ProofsWG ProofsLK ProofsSN.
 Import ListNotations.
 
@@ -30,6 +31,37 @@ Example C14_derived_nonvacuous :
              [DV.OInherit; DV.OSetIn 0 5%Z; DV.OSetIn 2 (-3)%Z; DV.OSetT 4%Z; DV.OInherit; DV.OSetIn 1 1%Z; DV.OUnInherit; DV.OSetIn 0 0%Z] in
   DV.ddirty s = false /\ DV.dsub s = true /\ DV.tdirty s = false /\ (0 < DV.tsub s)%nat /\ DV.d s = 0%Z /\ DV.t s = 0%Z /\ DV.ins s = [0; 1; -3]%Z.
 Proof. exact ProofsDV.dv_nonvacuous. Qed.
+
+(* ---- (1b) DerivedVariable2 under ALL interleavings (ModelDVI.v: two inputs each with its update-order mutex, the
+        derived variable's Compute lock, the recompute reading the other input inside the critical section, an
+        inheriting variable): whatever the writers' programs and the schedule of their atomic steps, once all
+        writers have returned the derived variable equals compute(input1, input2) and the inheriting variable
+        equals it; and no combination of writes deadlocks (a non-quiescent reachable state has an enabled thread
+        whose step decreases the remaining work; quiescence is reachable from every reachable state) *)
+Theorem C14_derived_converges_all_schedules : forall (f : Z -> Z -> Z) a b progs sched,
+  let s := DVI.run false f (DVI.init f a b progs) sched in
+  DVI.quiescent s = true -> DVI.d s = f (DVI.in1 s) (DVI.in2 s) /\ DVI.t s = DVI.d s.
+Proof. exact ProofsDVI.dvi_converges. Qed.
+
+Theorem C14_derived_no_deadlock : forall (f : Z -> Z -> Z) a b progs sched,
+  let s := DVI.run false f (DVI.init f a b progs) sched in
+  (DVI.quiescent s = false -> exists k, DVI.enabled s k = true /\ (DVI.left (DVI.step false f s k) < DVI.left s)%nat) /\
+  exists more, DVI.quiescent (DVI.run false f s more) = true.
+Proof. exact ProofsDVI.dvi_no_deadlock. Qed.
+
+(* the variant whose callback reads the other input BEFORE entering d.Compute (DVI.step true) does not converge:
+   writer 0 = input1.Set(1) reads input2 = 0, writer 1 = input2.Set(1) runs completely, writer 0 stores compute(1, 0) *)
+Theorem C14_refuted_derived_early_read :
+  let s := DVI.run true ProofsDVI.f10 (DVI.init ProofsDVI.f10 0 0 ProofsDVI.early_progs) ProofsDVI.early_sched in
+  DVI.quiescent s = true /\ DVI.in1 s = 1%Z /\ DVI.in2 s = 1%Z /\ DVI.d s = 10%Z /\ DVI.t s = 10%Z /\
+  DVI.d s <> ProofsDVI.f10 (DVI.in1 s) (DVI.in2 s).
+Proof. exact ProofsDVI.dvi_refuted_early_read. Qed.
+
+Example C14_derived_all_schedules_nonvacuous :
+  let s := DVI.run false ProofsDVI.f10 (DVI.init ProofsDVI.f10 0 0 ProofsDVI.early_progs)
+             [0; 0; 0; 1; 1; 1; 1; 0; 0; 1; 0; 0; 0; 1; 1; 1; 1; 1; 1]%nat in
+  DVI.quiescent s = true /\ DVI.in1 s = 1%Z /\ DVI.in2 s = 1%Z /\ DVI.d s = 11%Z /\ DVI.t s = 11%Z.
+Proof. exact ProofsDVI.dvi_nonvacuous. Qed.
 
 (* ---- (2) DerivedSet = union of the current sources, SubtractReactive = source minus the others (all histories of
         Add/Delete/AddAll/DeleteAll/Apply/Replace on the sources, InheritFrom, unsubscribing; guards: the derived set is
@@ -137,6 +169,9 @@ Proof. exact ProofsLK.lk_sortedset_fixed_add_deadlock_free. Qed.
 Print Assumptions C14_derived_converges.
 Print Assumptions C14_inherit_copies_source.
 Print Assumptions C14_derived_chain.
+Print Assumptions C14_derived_converges_all_schedules.
+Print Assumptions C14_derived_no_deadlock.
+Print Assumptions C14_refuted_derived_early_read.
 Print Assumptions C14_union.
 Print Assumptions C14_subtract.
 Print Assumptions C14_counter.
